@@ -183,5 +183,5 @@ MANIFEST = {
     "text": "Exhaustive over all 111,110 starting ids of 1..5 digits (both tiers), generated 6..7 digit ids, and chains of up to 10,000 successive bumps; every "
             "step is checked numerically, lexically and for width.",
     "note": "All-nines ids (the documented maximum) are excluded and counted. Ids longer than 7 digits are not explored.",
-    "technique": "exhaustive enumeration + property-based testing (Hypothesis); invariant over bump chains and reference model",
+    "technique": "exhaustive enumeration + property-based testing (Hypothesis); invariant over bump chains and reference model; plus coverage-guided fuzzing (atheris/libFuzzer) of the same byte decoder and oracle",
 }
